@@ -1,6 +1,6 @@
 """C13 scraper for the Go backend: `//go:wasmimport module field` / `//go:wasmexport field` + the func line."""
 import re
-from c13_common import mk, line_of, count_word, text_files, split_params
+from c13_common import mk, line_of, word_counts, text_files, split_params, mark_referenced
 
 DIRECTIVE = re.compile(r'^//go:(?P<k>wasmimport|wasmexport)\s+(?P<rest>[^\n]*)\n\s*func\s+(?P<f>[A-Za-z_][A-Za-z0-9_]*)\s*\((?P<p>[^)]*)\)[ \t]*(?P<r>[^\n{]*)', re.M)
 TY = {"int32": "i", "uint32": "i", "uintptr": "i", "unsafe.Pointer": "i", "int64": "I", "uint64": "I",
@@ -29,10 +29,12 @@ def sig_of(params, ret):
 
 def scrape(files):
     out = []
+    wcs = {}
     gos = text_files(files, [".go"])
     for fn, t in gos.items():
         n_dir = len(re.findall(r"^//go:wasm(?:import|export)\b", t, flags=re.M))
         got = 0
+        wc = wcs[fn] = word_counts([t])
         for m in DIRECTIVE.finditer(t):
             got += 1
             rest = m.group("rest").strip()
@@ -43,10 +45,10 @@ def scrape(files):
                 if len(parts) != 2:
                     out.append(mk("I", "?", rest, "?", m.group("f"), fn, ln))
                     continue
-                ref = count_word(m.group("f"), [t]) > 1
-                out.append(mk("I", parts[0], parts[1].strip(), sig, m.group("f"), fn, ln, ref))
+                out.append(mk("I", parts[0], parts[1].strip(), sig, m.group("f"), fn, ln))
+                out[-1]["_scope"] = fn
             else:
                 out.append(mk("E", "", rest, sig, m.group("f"), fn, ln))
         if got != n_dir:
             out.append(mk("I", "?", "<%d go:wasm directives not parsed in %s>" % (n_dir - got, fn), "?", "?", fn, 0))
-    return out
+    return mark_referenced(out, wcs)
